@@ -316,8 +316,12 @@ func (progBldr *ProgBuilder) CodePathOper(elem int) {
 		// not implemented
 	case '/':
 		pathOperPush = func(ctx *context) {
-			ctx.actualPathStack.PeakPath().SetIsRootBased(true)
-			//ctx.actualPathStack.PushElem("/")
+			// An absolute path starts at the root whatever has been
+			// collected so far: inside a predicate the path on top of the
+			// stack is a copy of the path the predicate belongs to.
+			p := ctx.actualPathStack.PeakPath()
+			p.Elem = nil
+			p.SetIsRootBased(true)
 		}
 	default:
 		// unknown
